@@ -70,11 +70,14 @@ func (s *RefreshableFileDataSource) Initialize() error {
 	// old content until somebody touches the file again.
 	w, err := fsnotify.NewWatcher()
 	if err != nil {
+		// not initialized after all: a later call must be able to try again
+		s.isInitialized.Set(false)
 		return errors.Errorf("Fail to new a watcher instance of fsnotify, err: %+v", err)
 	}
 	err = w.Add(s.sourceFilePath)
 	if err != nil {
 		_ = w.Close()
+		s.isInitialized.Set(false)
 		return errors.Errorf("Fail add a watcher on file[%s], err: %+v", s.sourceFilePath, err)
 	}
 	s.watcher = w
